@@ -122,6 +122,14 @@ def judge(v, res):
             if not any(m in txt for m in v["mention"]):
                 return False, f"UNNAMED {v['id']}: fired on {fired} but the report does not mention any of {v['mention']}"
         return True, f"ok   {v['id']} fired on {fired}"
+    if exp == "undecided":
+        # a correct spelling the rules cannot read: ANALYSIS-ERROR (exit 2) is acceptable, a VIOLATION is a false alarm
+        bad1 = {p: c for p, c in codes.items() if c == 1}
+        if bad1:
+            p0 = next(iter(bad1))
+            tail = "\n".join(l for l in res["results"][p0][1].splitlines() if "VIOLATION" in l)[:800]
+            return False, f"FALSE-ALARM {v['id']} ({v['desc']}): exit codes {bad1}\n{tail}"
+        return True, f"ok   {v['id']} no violation reported (exit codes {codes})"
     bad = {p: c for p, c in codes.items() if c != 0}
     if bad:
         p0 = next(iter(bad))
